@@ -483,6 +483,16 @@ def check(ex, info):
         if bi is not None and not skipped and [id(v) for v in bi.values()] != [id(v) for v in dict.values(root)]:
             fail("compound-members-kept", "the same member objects before and after the call",
                  "members replaced by %s" % (op or {}).get("op"))
+        # set(text): the members hold the date the text DENOTES (any Unicode decimal digits, Unicode whitespace
+        # stripped), or None each if it denotes none — read independently of the library's regex and of int()
+        if op is not None and not skipped and info.get("target") is root and op["op"] == "set" and "policy" not in op \
+                and isinstance(op.get("v"), str) and info.get("raised") is None \
+                and all(G.kind_of_class(type(dict.__getitem__(root, f.name))) == "integer" for f in root.field_schema
+                        if dict.__contains__(root, f.name)) and len(dict.keys(root)) == 3:
+            want = read_date_text(op["v"]) or [None, None, None]
+            got = [dict.__getitem__(root, f.name).value for f in root.field_schema]
+            if got != want:
+                fail("compound-date-text-explodes", want, got, text=op["v"], codepoints=[ord(c) for c in op["v"]])
     for k, v in adopted:
         if dict.get(root, k) is not v:
             fail("element-of-field-class-adopted", "the Element argument is the stored member", "another object is stored")
@@ -520,6 +530,84 @@ def foreign_name_arg(case, failure):
             and failure.get("placed_now") is True and failure.get("arg_own_name") is not None
             and failure.get("observed") == failure.get("arg_own_name")
             and failure.get("expected") != failure.get("observed"))
+
+
+
+# ---------------------------------------------------------------- date texts of Compound roots (n3)
+
+import unicodedata as _ud
+
+_ND_ZEROS = [c for c in range(0x110000) if _ud.category(chr(c)) == "Nd" and _ud.digit(chr(c)) == 0]
+_UWS = ["\u00a0", "\u3000", "\u2003", "\u1680", "\x1f", "\x85", "\u2028", "\t", " "]
+
+
+def gen_date_text(rng):
+    """a date text for DateYYYYMMDD.set: ASCII, ONE non-ASCII decimal script, mixed scripts, near misses, surrounding
+    (Unicode) whitespace / trailing newline.  Returns (text, tag)."""
+    import datetime
+    d = datetime.date(rng.choice([1, 999, 1900, 2000, 2020, 2024, 9999]), rng.randint(1, 12), rng.randint(1, 28))
+    if rng.random() < 0.2:
+        d = rng.choice([datetime.date(2024, 2, 29), datetime.date(2000, 2, 29), datetime.date(1, 1, 1)])
+    s = d.isoformat()
+
+    def script(t, z):
+        return "".join(chr(z + ord(c) - 48) if "0" <= c <= "9" else c for c in t)
+
+    r = rng.random()
+    if r < 0.25:
+        z = rng.choice(_ND_ZEROS[1:] if rng.random() < 0.6 else [0x660, 0xFF10, 0x966, 0x1D7CE, 0x6F0])
+        return script(s, z), "one-script"
+    if r < 0.45:
+        return "".join(chr(rng.choice(_ND_ZEROS) + ord(c) - 48) if "0" <= c <= "9" and rng.random() < 0.6 else c for c in s), "mixed-scripts"
+    if r < 0.70:
+        z = rng.choice([48, 0x660, 0xFF10, 0x966])
+        miss = rng.choice([
+            "%d-%d-%d" % (d.year, d.month, d.day),                       # '2024-2-29': field widths
+            script("2024-02-30", z), script("2023-02-29", z), script("2024-13-01", z), script("2024-00-10", z),
+            script("0000-01-01", z), script("2024-04-31", z),            # well-formed, not a calendar date
+            s[:-1] + rng.choice(["\u00b2", "\u2167", "\u2461", "\u0bf0", "\u3007", "x"]),   # digit-LIKE, not Nd
+            s.replace("-", rng.choice(["/", "\u2010", "\u2212", "\uff0d"])),                   # other hyphens
+            s + "0", "1" + s, s[:4] + "-" + s[4:], s + "\n\n", s + " x", s[:7],
+            script(s, z).replace("-", "", 1),
+        ])
+        return miss, "near-miss"
+    if r < 0.88:
+        z = rng.choice([48, 48, 0x660, 0xFF10])
+        lead = "".join(rng.choice(_UWS) for _ in range(rng.choice([0, 1, 2])))
+        trail = "".join(rng.choice(_UWS) for _ in range(rng.choice([0, 1, 2]))) + rng.choice(["", "\n", "\n", "\r\n"])
+        return lead + script(s, z) + trail, "whitespace"
+    return s, "ascii"
+
+
+def read_date_text(t):
+    """independent reading of what a text denotes for DateYYYYMMDD: strip, four / two / two Unicode DECIMAL digits
+    between hyphens (unicodedata.decimal per character — no regex, no int()), a calendar date.  None if it denotes none."""
+    import datetime
+    t = t.strip()
+    if len(t) != 10 or t[4] != "-" or t[7] != "-":
+        return None
+    vals = []
+    for part in (t[0:4], t[5:7], t[8:10]):
+        n = 0
+        for ch in part:
+            dv = _ud.decimal(ch, None) if _ud.category(ch) == "Nd" else None
+            if dv is None:
+                return None
+            n = n * 10 + dv
+        vals.append(n)
+    try:
+        datetime.date(*vals)
+    except ValueError:
+        return None
+    return vals
+
+
+def date_text_tag(t):
+    if not isinstance(t, str):
+        return None
+    non_ascii = any(ord(c) > 127 and _ud.category(c) == "Nd" for c in t)
+    ok = read_date_text(t) is not None
+    return ("date-text:" + ("non-ascii-digits" if non_ascii else "ascii") + ("+denotes" if ok else "+rejected"))
 
 
 # ---------------------------------------------------------------- the property
@@ -579,6 +667,9 @@ class C10(Property):
         "Flatland.C10.Proofs.compound_keys_exact",
         "Flatland.C10.Proofs.compound_keys_nodup",
         "Flatland.C10.Proofs.compound_undeclared_rejected",
+        "Flatland.C10.Proofs.parseDate_is_scalar_date_adapt",
+        "Flatland.C10.Proofs.ascii_reader_differs",
+        "Flatland.C10.Proofs.date_regex_pinned",
         # the flat route (over Flatland/Flat.lean)
         "Flatland.C10.Flat.shape_setFlat",
         "Flatland.C10.Flat.setFlat_inv",
@@ -616,7 +707,8 @@ class C10(Property):
                   "reachable state. COMPOUND (h6): a Compound is a Mapping that overrides only set(); model = dense dict "
                   "node + prepare (lazy __compound_init__ of DateYYYYMMDD: a supplied list of <= 3 fields completed by "
                   "generated year/month/day: prepare_length/_prefix/_keys) + compoundSet (explode as a PARAMETER under the "
-                  "documented contract; dateExplode = DateYYYYMMDD.explode) + compoundStep; compound_inv_step/_run, "
+                  "documented contract; dateExplode = DateYYYYMMDD.explode, date text read with every Unicode decimal digit (n3: "
+                  "parseDate_is_scalar_date_adapt, ascii_reader_differs, date_regex_pinned)) + compoundStep; compound_inv_step/_run, "
                   "compound_keys_exact(_nodup) (keys exactly the prepared field names after every history), "
                   "compound_set_keeps_members (set(value) keeps every member's identity/class/key/parent, for EVERY "
                   "explode), compound_undeclared_rejected. FLAT ROUTE (h6, over Flatland/Flat.lean): setFlat_inv / "
@@ -646,7 +738,7 @@ class C10(Property):
     assumptions = [
         "Compound: explode() implementations follow the documented contract (assign values to declared children through "
         "self[name].set(v), or raise before touching anything); compose/explode VALUES belong to C18 — only "
-        "DateYYYYMMDD.explode on None/int/str/containers is modelled (dateExplode, ASCII digits)",
+        "DateYYYYMMDD.explode on None/int/str/containers is modelled (dateExplode; text read with the scalar model's Date reader over the regenerated Unicode tables: every Nd digit, Unicode whitespace stripped — parseDate_is_scalar_date_adapt; the regex source is pinned by date_regex_pinned)",
         "Compound field names are distinct: NOT enforced by the code for a user-supplied field_schema (a supplied first "
         "field named 'month' collides with the generated one) — hypothesis of compound_keys_exact, see c10_findings.json",
         "flat stream: the flat model's text normalisation (Env.norm) is irrelevant to key skeletons and set to identity",
@@ -837,6 +929,18 @@ class C10(Property):
                 if init["route"] == "set_flat":
                     init["pairs"] = G.gen_flat_pairs(rng, schema)
                 ops = [_op(G.gen_map_op(rng, schema, valid=rng.random() < 0.8, flat=flat)) for _ in range(rng.choice([1, 2, 4, 8, 12]))]
+                # date texts with non-ASCII decimal digits, mixed scripts, near misses, Unicode whitespace (n3)
+                if isinstance(init["value"], str) and rng.random() < 0.5:
+                    init["value"] = gen_date_text(rng)[0]
+                if isinstance(schema["default"], str) and rng.random() < 0.4:
+                    schema["default"] = gen_date_text(rng)[0]
+                for o in ops:
+                    if o["m"].get("op") == "set" and o.get("t", 0) == 0 and rng.random() < 0.7:
+                        o["m"]["v"] = gen_date_text(rng)[0]
+                        if "policy" in o["m"] and rng.random() < 0.7:
+                            del o["m"]["policy"]
+                if rng.random() < 0.5:
+                    ops.insert(rng.randint(0, len(ops)), _op({"op": "set", "v": gen_date_text(rng)[0]}))
                 case = {"schema": schema, "init": init, "ops": ops}
                 if G.has_flat(case):
                     case["nomodel"] = True
@@ -977,6 +1081,8 @@ class C10(Property):
                 t.append("skip:" + out["skip"].split(":")[0])
             else:
                 t.append("op:%s:ok%s" % (name, suffix))
+            if s["k"] == "date" and name == "set" and o.get("t", 0) == 0 and "policy" not in o["m"] and date_text_tag(o["m"].get("v")):
+                t.append(date_text_tag(o["m"]["v"]))
             a = o["m"].get("a") or {}
             for a in [a] + [x for _, x in o["m"].get("items", [])]:
                 for v in ("inst_optional", "inst_name", "sub_optional"):
